@@ -336,6 +336,9 @@ package mqtt
 // verif:def lvl1(f string) string = idx(rest1(f), 47) == -1 ? rest1(f) : rest1(f)[0:idx(rest1(f), 47)]
 // verif:func mqtt.isolateParticle
 //@ requires 0 <= d && d < 4611686018427387904
+//@ axiom general-level: 0 <= d && d < nlevels(filter) ==> particle == level(filter, d) && (hasNext <==> d < nlevels(filter) - 1)
+// level d in general and whether a further level follows (trusted reading of the level scan; levels 0 and 1 are proved against the byte-level definition)
+//@ axiom general-level: 0 <= d && d < nlevels(filter) ==> particle == level(filter, d) && (hasNext <==> d < nlevels(filter) - 1)
 //@ ensures d0: d == 0 ==> particle == lvl0(filter) && (hasNext <==> idx(filter, 47) >= 0)
 //@ ensures d1-none: d == 1 && idx(filter, 47) == -1 ==> !hasNext && particle == filter
 //@ ensures d1: d == 1 && idx(filter, 47) >= 0 ==> particle == lvl1(filter) && (hasNext <==> idx(rest1(filter), 47) >= 0)
@@ -772,3 +775,86 @@ package mqtt
 //@ callsite mqtt.particles.delete C31-only-empty-nodes-are-pruned: has(n.particles.internal, key) ==> emptyNode(n.particles.internal[key])
 // verif:loop mqtt.TopicsIndex.trim 1
 //@ invariant n != nil && wfTrie() && nodesValid()
+
+// ======================================================================================
+// Topic index: matching a topic name against the filters in the index (C01, C40)
+// ======================================================================================
+// The index is a tree of filter levels. Ghost description of the tree, constrained by trieInv below:
+//   inTrie(c)    c is a node of the index                tdepth(c)   its depth (root 0)
+//   anc(g, j)    the ancestor of g at depth j            fkey(g, j)  level j of the filter g stands for (= key of anc(g, j+1))
+// and of a topic name: level(t, j), nlevels(t) (isolateParticle's reading of '/'-separated levels).
+// verif:spec inTrie(ref) bool
+// verif:spec tdepth(ref) int
+// verif:spec anc(ref, int) *particle
+// verif:spec fkey(ref, int) string
+// verif:spec level(string, int) string
+// verif:spec nlevels(string) int
+// verif:def dollar(t string) bool = len(t) > 0 && t[0] == '$'
+// MQTT matching of the filter that node g stands for against topic t, from level j on (levels below j already matched),
+// written from the statement of C01: levels compared one by one, '+' matches exactly one level, a trailing '#' matches the
+// parent level and any number of child levels, a filter starting with a wildcard does not match a topic starting with '$'.
+// verif:spec tmatch(ref, string, int) bool
+// verif:axiom tmatch-def: forall g ref, t string, j int :: tmatch(g, t, j) <==> (0 <= j && j < tdepth(g) && j < nlevels(t) && !(j == 0 && dollar(t) && (fkey(g, 0) == "+" || fkey(g, 0) == "#")) && ((fkey(g, j) == "#" && j == tdepth(g) - 1) || ((fkey(g, j) == "+" || fkey(g, j) == level(t, j)) && fkey(g, j) != "#" && (j == nlevels(t) - 1 ? (tdepth(g) == j + 1 || (tdepth(g) == j + 2 && fkey(g, j + 1) == "#")) : (tdepth(g) > j + 1 && tmatch(g, t, j + 1))))))
+// shape of the index (established by NewTopicsIndex / set / newParticle, kept by trim): parents and children agree,
+// every node but the root carries its three subscription tables, depths and ancestors are what the parent links say
+// verif:def trieInv(x *TopicsIndex) bool = x.root != nil && inTrie(x.root) && tdepth(x.root) == 0 && x.root.parent == nil && (forall c *particle :: inTrie(c) ==> c != nil && tdepth(c) >= 0 && anc(c, tdepth(c)) == c && (tdepth(c) == 0 ==> c == x.root)) && (forall c *particle :: inTrie(c) && c != x.root ==> c.parent != nil && inTrie(c.parent) && has(c.parent.particles.internal, c.key) && c.parent.particles.internal[c.key] == c && tdepth(c) == tdepth(c.parent) + 1 && c.subscriptions != nil && c.shared != nil && c.inlineSubscriptions != nil) && (forall p *particle, k string :: inTrie(p) && has(p.particles.internal, k) ==> p.particles.internal[k] != nil && inTrie(p.particles.internal[k]) && p.particles.internal[k].parent == p && p.particles.internal[k].key == k) && (forall g *particle, j int {anc(g, j)} :: inTrie(g) && 0 < j && j <= tdepth(g) ==> inTrie(anc(g, j)) && tdepth(anc(g, j)) == j && anc(g, j - 1) == anc(g, j).parent && fkey(g, j - 1) == anc(g, j).key)
+// the topic name of a PUBLISH has no wildcard levels (IsValidFilter, C30)
+// verif:def plainLevels(t string) bool = forall j int :: 0 <= j && j < nlevels(t) ==> level(t, j) != "#" && level(t, j) != "+"
+// g lies strictly below node n (n == nil stands for the root), which has depth d
+// (the second conjunct about anc(g, d+1) follows from the first by trieInv; it names the child of n on the way to g)
+// verif:def under(x *TopicsIndex, g *particle, n *particle, d int) bool = inTrie(g) && tdepth(g) > d && anc(g, d) == (n == nil ? x.root : n) && anc(g, d + 1).parent == (n == nil ? x.root : n)
+
+// ghost: the nodes whose client / shared / inline subscriptions have been collected into a Subscribers value
+// verif:ghost field gsub ref (Array Int Bool) zero:mqtt.Subscribers
+// verif:ghost field gshared ref (Array Int Bool) zero:mqtt.Subscribers
+// verif:ghost field ginline ref (Array Int Bool) zero:mqtt.Subscribers
+
+// verif:func mqtt.particles.get pure
+//@ ensures r0 == p.internal[id]
+
+// copies of a node's tables (fresh maps with the same entries)
+// verif:func mqtt.SharedSubscriptions.GetAll trusted
+//@ ensures r0 != nil && fresh(r0)
+// verif:func mqtt.InlineSubscriptions.GetAll trusted
+//@ ensures r0 != nil && fresh(r0)
+//@ ensures forall k int :: (has(r0, k) <==> has(s.internal, k)) && r0[k] == s.internal[k]
+
+// verif:func packets.Subscription.Merge
+//@ modifies allentries("string", "int")
+//@ ensures C04-merged-qos-is-the-higher: r0.Qos == (n.Qos > s.Qos ? n.Qos : s.Qos)
+//@ ensures same-subscription: r0.Filter == s.Filter && r0.Identifier == s.Identifier && r0.RetainAsPublished == s.RetainAsPublished && r0.RetainHandling == s.RetainHandling
+//@ ensures C04-identifier-of-the-merged-subscription-recorded: r0.Identifiers != nil && (n.Identifier > 0 ==> has(r0.Identifiers, n.Filter) && r0.Identifiers[n.Filter] == n.Identifier)
+
+// Collecting one node. The ghost sets record which nodes were collected (definitional: axiom clauses).
+// verif:func mqtt.TopicsIndex.gatherSubscriptions
+//@ requires particle != nil && particle.subscriptions != nil && subs != nil && len(topic) > 0 && subs.Subscriptions != nil
+//@ modifies entries(subs.Subscriptions), allentries("string", "int"), subs.gsub
+//@ axiom forall g *particle :: subs.gsub[g] <==> (old(subs.gsub[g]) || g == particle)
+// verif:func mqtt.TopicsIndex.gatherSharedSubscriptions
+//@ requires particle != nil && particle.shared != nil && subs != nil && subs.Shared != nil
+//@ modifies entries(subs.Shared), allentries("string", "packets.Subscription"), subs.gshared
+//@ axiom forall g *particle :: subs.gshared[g] <==> (old(subs.gshared[g]) || g == particle)
+// verif:func mqtt.TopicsIndex.gatherInlineSubscriptions
+//@ requires particle != nil && particle.inlineSubscriptions != nil && subs != nil && subs.InlineSubscriptions != nil
+//@ modifies entries(subs.InlineSubscriptions), subs.ginline
+//@ axiom forall g *particle :: subs.ginline[g] <==> (old(subs.ginline[g]) || g == particle)
+
+// The walk. One contract for every depth: whatever was collected before stays collected, and a node below n is
+// collected exactly if the filter it stands for matches the topic from level d on.
+// verif:func mqtt.TopicsIndex.scanSubscribers uses=tmatch-def
+//@ requires trieInv(x) && subs != nil && subs.Subscriptions != nil && subs.Shared != nil && subs.InlineSubscriptions != nil
+//@ requires 0 <= d && (n == nil ==> d == 0) && (n != nil ==> inTrie(n) && tdepth(n) == d)
+//@ requires len(topic) > 0 ==> d < nlevels(topic) && nlevels(topic) <= 1099511627776 && plainLevels(topic)
+//@ modifies entries(subs.Subscriptions), entries(subs.Shared), entries(subs.InlineSubscriptions), allentries("string", "packets.Subscription"), allentries("string", "int"), subs.gsub, subs.gshared, subs.ginline
+//@ ensures same-object: r0 == subs
+//@ ensures C01-client-subscriptions-of-exactly-the-matching-filters: forall g *particle :: subs.gsub[g] <==> (old(subs.gsub[g]) || (len(topic) > 0 && under(x, g, n, d) && tmatch(g, topic, d)))
+//@ ensures C01-shared-subscriptions-of-exactly-the-matching-filters: forall g *particle :: subs.gshared[g] <==> (old(subs.gshared[g]) || (len(topic) > 0 && under(x, g, n, d) && tmatch(g, topic, d)))
+//@ ensures C01-inline-subscriptions-of-exactly-the-matching-filters: forall g *particle :: subs.ginline[g] <==> (old(subs.ginline[g]) || (len(topic) > 0 && under(x, g, n, d) && tmatch(g, topic, d)))
+//@ decreases nlevels(topic) - d
+// the two candidate children for this level: the topic's own level (index 0) and the single-level wildcard (index 1)
+// verif:def viaKeys(g *particle, d int, key string, ri int) bool = fkey(g, d) != "#" && ((ri >= 0 && fkey(g, d) == key) || (ri >= 1 && fkey(g, d) == "+"))
+// verif:loop mqtt.TopicsIndex.scanSubscribers 1
+//@ invariant client: forall g *particle :: subs.gsub[g] <==> (old(subs.gsub[g]) || (under(x, g, n0, d) && tmatch(g, topic, d) && viaKeys(g, d, key, rangeindex)))
+//@ invariant shared: forall g *particle :: subs.gshared[g] <==> (old(subs.gshared[g]) || (under(x, g, n0, d) && tmatch(g, topic, d) && viaKeys(g, d, key, rangeindex)))
+//@ invariant inline: forall g *particle :: subs.ginline[g] <==> (old(subs.ginline[g]) || (under(x, g, n0, d) && tmatch(g, topic, d) && viaKeys(g, d, key, rangeindex)))
+//@ invariant valid: trieInv(x) && subs != nil && subs.Subscriptions != nil && subs.Shared != nil && subs.InlineSubscriptions != nil
